@@ -759,13 +759,15 @@ def check(col, prog, tier, profile, fixture=None):
         facts = cmp_facts(st)
         # which parameter is the larger circle on this path?
         swapped = None
-        for (lin, op, truth) in facts:
+        # (a strict comparison is the ordering branch; a weak one is used only when there is no strict one — a
+        # `debug_assert!(a.r >= b.r)` after the swap restates the result, it does not decide it)
+        for (lin, op, truth) in sorted(facts, key=lambda x_: 0 if x_[1] in ("Le", "Ge") else 1):
             atoms = lin[0]
             rs = [a for a in atoms if a[0] == "load" and a[2][0] == "field" and a[2][2] == CR and a[2][1][0] == "deref" and a[2][1][1][0] == "param"]
-            if len(atoms) == 2 and len(rs) == 2 and lin[1] == 0 and op in ("Lt", "Gt"):
+            if len(atoms) == 2 and len(rs) == 2 and lin[1] == 0 and op in ("Lt", "Gt", "Le", "Ge"):
                 p1 = [a for a in rs if a[2][1][1][1] == 1][0]
                 s = atoms[p1]
-                less = (op == "Lt") == (s > 0)  # a.r < b.r
+                less = (op in ("Lt", "Le")) == (s > 0)  # a.r < b.r (with equal radii either circle may be "the larger")
                 swapped = less == truth
         if swapped is None:
             col.violation("G3", "%s|radii-ordered" % fk(b), b.loc(), "a path of intersect_cc forms R - r without first ordering the radii (no a.r < b.r test on the path)")
@@ -790,8 +792,8 @@ def check(col, prog, tier, profile, fixture=None):
                     lad[name] = below
             if len(dd) == 1 and len(atoms) == 1 and is_eps(lin[1]):
                 s = 1 if atoms[dd[0]] > 0 else -1
-                o = op if s > 0 else {"Gt": "Lt", "Lt": "Gt"}.get(op, op)
-                same = (o == "Lt") == truth
+                o = op if s > 0 else {"Gt": "Lt", "Lt": "Gt", "Ge": "Le", "Le": "Ge"}.get(op, op)
+                same = (o in ("Lt", "Le")) == truth   # strictness at exactly d == EPS is inside the tolerance band
             if not dd and len(rb) == 1 and len(rsm) == 1 and len(atoms) == 2 and is_eps(lin[1]):
                 # R - r against EPS: the radii agree within the tolerance exactly when R - r - EPS < 0 (R >= r here)
                 s = 1 if atoms[rb[0]] > 0 else -1
@@ -818,6 +820,7 @@ def check(col, prog, tier, profile, fixture=None):
             key = "%s|same" % fk(b)
             if same and radii_close:
                 col.ok("G3", b.loc(), key, "d < EPS and R - r < EPS -> Same")
+                seen["Same"] = True
             else:
                 col.violation("G3", key, b.loc(), "Same must be returned exactly for coincident centres (d < EPS) and radii equal within the tolerance (R - r < EPS, radii ordered first)")
             continue
@@ -844,6 +847,13 @@ def check(col, prog, tier, profile, fixture=None):
             else:
                 col.violation("G1", "%s|%s|point" % (fk(b), var), b.loc(), "the %s point does not depend on %s" % (var, ", ".join(miss)))
 
+    missing = [k_ for k_ in ("Same", "None", "TouchInside", "via-circle-line", "TouchOutside") if not seen.get(k_)]
+    key = "%s|kinds" % fk(b)
+    if missing:
+        col.violation("G3", key, b.loc(), "intersect_cc never reports %s on a correctly guarded path: identical circles, internal/external tangency, two points and no contact must all be reachable" % ", ".join(missing))
+    else:
+        col.ok("G3", b.loc(), key, "all five kinds are reported, each under its own region of d")
+
     # ---------------- position
     b = util.need_body(crate, "Circle::position")
     I = util.analyse(b)
@@ -856,10 +866,10 @@ def check(col, prog, tier, profile, fixture=None):
                 (a, c), = lin[0].items()
                 s = 1 if c > 0 else -1
                 k = lin[1] * s
-                o = op if s > 0 else {"Gt": "Lt", "Lt": "Gt"}.get(op, op)
-                if k > 0 and o == "Lt":
+                o = op if s > 0 else {"Gt": "Lt", "Lt": "Gt", "Ge": "Le", "Le": "Ge"}.get(op, op)
+                if k > 0 and o in ("Lt", "Le"):   # (strictness at exactly +-EPS is inside the tolerance band)
                     lad["<-e"] = truth
-                if k < 0 and o == "Gt":
+                if k < 0 and o in ("Gt", "Ge"):
                     lad[">+e"] = truth
         # the regions of the signed relative distance consistent with the tests decided on this path, whatever
         # their order: Inside = (< -eps), Border = neither test true, Outside = (> +eps)
